@@ -32,6 +32,7 @@ def run(tier, seed):
     stmts = [s for s in stmts if s["t"]["width"] <= 255 and s["t"]["ln"] <= 5]
     step = max(1, len(stmts) // (25 if tier == "quick" else 150))
     scs = [starkgen.scenario(rec, i, seed) for i, rec in enumerate(stmts[::step])]
+    scs = [sc for sc in scs if not starkgen.low_degree(sc)]
     pp = os.path.join(wd, "proofs.ndjson")
     if os.path.exists(pp):
         os.remove(pp)
